@@ -186,14 +186,17 @@ class Enumerator:
             ys = [x for x in ast.walk(st.value) if isinstance(x, (ast.Yield, ast.YieldFrom))]
             if ys:
                 raise Unsupported("yield inside an assignment")
-            evs = []
+            live = []
             for t in targets:
                 if isinstance(t, ast.Name) and t.id in self.defs:
                     continue  # inlined temporary
                 if isinstance(t, ast.Tuple) and all(isinstance(e, ast.Name) and e.id in self.defs for e in t.elts):
                     continue  # every unpacked name has its own closed form
-                evs.append(("set", norm(t), self.tx(st.value)))
-            return [(evs, None)]
+                live.append(norm(t))
+            if not live:
+                return [([], None)]
+            # a conditional expression on the right-hand side is a branch: x = a if c else b
+            return [(facts + [("set", t, txt) for t in live], None) for facts, txt in self.forks(st.value)]
         if isinstance(st, ast.AugAssign):
             # x op= v  is  x = x op (v): expressed as an ordinary expression so that path-local resolution can substitute x
             e = ast.BinOp(left=ast.Name(id="__SELF__", ctx=ast.Load()), op=st.op, right=inline(st.value, self.defs))
